@@ -128,16 +128,20 @@ def case_product(rec, c):
                 bad[v].append((i, incore))
         rec.outcome(core.digest([cname, hc, pos[p][0], g, uu, float(out[i]) if math.isfinite(out[i]) else repr(out[i])]))
     best = min(variants, key=lambda v: len(bad[v]))
-    for i, incore in bad[best][:3]:
+    shown = {}
+    for i, incore in bad[best]:
         p, g, uu = combos[i]
         w = wants[best][0]
+        tg = tags(cname, 'value', 'core' if incore else 'outside_core', k1_form(cname, g, uu, out[i]))
+        grp = (tg['region'], tg.get('form'))
+        shown[grp] = shown.get(grp, 0) + 1
+        if shown[grp] > 2:          # two written-out elements per (region, form) group; the rest are counted
+            rec.count('further_mismatching_elements')
+            continue
         rec.fail(dict(c, element={'pos': pos[p][0], 'r': float(r[i]), 'gamma': g, 'u': uu}),
                  '%s(hard_core=%s, sigma=%g) at r=%g (%s), gamma=%g, u=%g returns %r, the published relation gives %r'
                  % (CLOSURES[cname][0], hc, sigma, r[i], pos[p][0], g, uu, float(out[i]), float(w[i])),
-                 tags(cname, 'value', 'core' if incore else 'outside_core', k1_form(cname, g, uu, out[i])),
-                 repro=REPRO % (CLOSURES[cname][1 if alias else 0], hc, uu, sigma, float(r[i]), g))
-    if len(bad[best]) > 3:
-        rec.count('further_mismatching_elements', len(bad[best]) - 3)
+                 tg, repro=REPRO % (CLOSURES[cname][1 if alias else 0], hc, uu, sigma, float(r[i]), g))
 
 
 REPRO = ("import numpy as np, pyPRISM\nc = pyPRISM.closure.%s(apply_hard_core=%r)\nc.potential = np.array([%r]); c.sigma = %r\n"
